@@ -70,6 +70,28 @@ let () =
       let w = { (rn_wc_of "~,~,~,~,~,~,~,~,~,~,~,~,~") with nwc_escape = rn_esc_of e } in
       (match decode_config_into (rn_client_init false false) w with None -> "err" | Some _ -> "ok")
     | _ -> "?args");
+  register "handshake2" (function [mode; width; win; cw0; actwin; act; cfgwin; cfg] ->
+      let a = { ln_win = (actwin = "1"); ln_body = (if act = "bad" then None else Some (rn_wa_of act)) } in
+      let c = if cfg = "none" then None
+        else Some { ln_win = (cfgwin = "1"); ln_body = (if cfg = "bad" then None else Some (rn_wc_of cfg)) } in
+      let r = rn_handshake2 (rn_env mode width win) (cw0 = "1") a c in
+      let is o = List.map fst o in
+      let acts = List.filter_map (function OAct w -> Some (rn_of_wa w) | _ -> None) (is r.h2_to_server) in
+      let cfgs = List.filter_map (function OCfg w -> Some (rn_of_wc w) | _ -> None) (is r.h2_to_client) in
+      let shape l = String.concat "+" (List.map (function OAct _ -> "ACT" | OCfg _ -> "CFG" | OFail -> "FAIL") (is l)) in
+      let kind = match r.h2_status, shape r.h2_to_server ^ "/" ^ shape r.h2_to_client with
+        | NHandshaking, "/" -> "hung0"
+        | NHandshaking, "ACT/" -> "hung1"
+        | _, "FAIL/FAIL" -> "badact"
+        | _, "ACT/" -> "refused"
+        | _, "ACT+FAIL/FAIL" -> "badcfg"
+        | _, "ACT/CFG" -> "done"
+        | _, x -> "?" ^ x in
+      let terms l = String.concat "" (List.map (fun (_, nl) ->
+          let h = rn_hex nl in if h = "210a" then "W" else if h = "0a" then "U" else "?") l) in
+      kind ^ ":" ^ String.concat "" acts ^ "|" ^ String.concat "" cfgs ^ ":" ^ rn_status_str r.h2_status
+      ^ ":S=" ^ terms r.h2_to_server ^ ":C=" ^ terms r.h2_to_client ^ ":w" ^ (if r.h2_cli_win then "1" else "0")
+    | _ -> "?args");
   register "handshake" (function [mode; width; win; act; cfg] ->
       let a = if act = "bad" then None else Some (rn_wa_of act) in
       let c = if cfg = "bad" || cfg = "none" then None else Some (rn_wc_of cfg) in
